@@ -7,6 +7,7 @@ atoms and values are linear combinations of atoms with real coefficients.  Pytho
 keys of a dict (pairwise distinct) yields exactly those keys, each mapped to the element expression evaluated at that key.
 
     __mul__ / __rmul__ (const):  result[k] = const * self[k]
+    zeros / ones / uniform (domain, cliques):  result[k] = Factor.zeros|ones|uniform(domain.project(k)) for exactly the listed cliques
     __add__ (scalar):            result[k] = self[k] + other
     __add__ (vector):            result[k] = self[k] + other[k]
     __sub__:                     result    = self + (-1) * other          (vector level, over the two contracts above)
@@ -24,12 +25,13 @@ K = z3.Const('arbitrary_clique_of_self', V)
 
 
 class CVHooks(LinHooks):
-    def __init__(self):
+    def __init__(self, over='self'):
         LinHooks.__init__(self, real_dicts=(), vector_dicts=(), sites=())
+        self.over = over            # the collection whose members the comprehension ranges over (self, or the `cliques` argument)
 
     def loop_item(self, eng, st, itv, k, node):
         # the comprehension ranges over the cliques of self: evaluate it at the arbitrary clique
-        if isinstance(node, ast.DictComp) and isinstance(itv, E.Obj) and str(itv.t) == 'self':
+        if isinstance(node, ast.DictComp) and isinstance(itv, E.Obj) and str(itv.t) == self.over:
             g = node.generators
             # exactly the cliques of self: one unfiltered generator over self whose key expression is the loop variable itself
             plain = len(g) == 1 and isinstance(g[0].target, ast.Name) and isinstance(node.key, ast.Name) and node.key.id == g[0].target.id
@@ -81,6 +83,15 @@ EXP = dict(BASE, params=dict(self='obj:CliqueVector'),
            ensures=dict(SAME_KEYS, **{'clique-by-clique:exp-of-own-table': 'same(at_k(result), self[k()].exp())'}))
 LOG = dict(BASE, params=dict(self='obj:CliqueVector'),
            ensures=dict(SAME_KEYS, **{'clique-by-clique:log-of-own-table': 'same(at_k(result), self[k()].log())'}))
+
+# constructors over a list of cliques: one table per listed clique, on the domain projected onto that clique
+def _ctor(fn):
+    return dict(BASE, params=dict(domain='obj:Domain', cliques='obj:list'), pure={'Factor.%s' % fn: 'obj', '.project': 'obj'}, over='cliques',
+                ensures={'exactly-the-listed-cliques': 'same_cliques_as_self(result)',
+                         'clique-by-clique:%s-table-on-the-projected-domain' % fn: 'same(at_k(result), Factor.%s(domain.project(k())))' % fn})
+
+
+CTOR_ITEMS = [('CliqueVector.%s' % fn, _ctor(fn), '') for fn in ('zeros', 'ones', 'uniform')]
 
 ITEMS = [('CliqueVector.__mul__', MUL, 'const'), ('CliqueVector.__rmul__', RMUL, 'const'), ('CliqueVector.__add__', ADD_SCALAR, 'scalar'),
          ('CliqueVector.__add__', ADD_VECTOR, 'vector'), ('CliqueVector.__sub__', SUB, ''), ('CliqueVector.exp', EXP, ''), ('CliqueVector.log', LOG, '')]
@@ -148,8 +159,8 @@ def combine_break_report():
 
 def reports():
     from .. import deductive
-    reps = [deductive.verify_function(REL, q, c, hooks=CVHooks(), prefix='%s::%s%s[one-key view]' % (REL, q, '[%s]' % label if label else ''))
-            for q, c, label in ITEMS]
+    reps = [deductive.verify_function(REL, q, c, hooks=CVHooks(c.get('over', 'self')), prefix='%s::%s%s[one-key view]' % (REL, q, '[%s]' % label if label else ''))
+            for q, c, label in ITEMS + CTOR_ITEMS]
     reps.append(deductive.verify_function(REL, 'CliqueVector.combine', COMBINE, hooks=combine_hooks(), prefix='%s::CliqueVector.combine[site contracts]' % REL))
     reps.append(combine_break_report())
     return reps
